@@ -273,7 +273,7 @@ func IterationAcross(fam byte, key string, mid func() *Op, tag string) *Step {
 	it := &iterState{}
 	did := false
 	st := &Step{}
-	name := map[byte]string{'E': "EScan", 'Z': "ZScan"}[fam]
+	name := map[byte]string{'E': "EScan", 'Z': "ZScan", 'H': "HScan"}[fam]
 	st.Gen = func(x *Exec) *Op {
 		if it.owner != x {
 			*it = iterState{owner: x}
@@ -291,7 +291,18 @@ func IterationAcross(fam byte, key string, mid func() *Op, tag string) *Step {
 			Run: func(r R, x *Exec, op *Op) Res {
 				var items []string
 				var next int
-				if fam == 'E' {
+				if fam == 'H' {
+					res, err := r.Hash().Scan(key, cur, "*", 1)
+					if err != nil {
+						it.done = true
+						return errOnly(err)
+					}
+					for _, v := range res.Items {
+						items = append(items, L(SS(v.Field), S(v.Value)))
+						it.items = append(it.items, SS(v.Field))
+					}
+					next = res.Cursor
+				} else if fam == 'E' {
 					res, err := r.Set().Scan(key, cur, "*", 1)
 					if err != nil {
 						it.done = true
@@ -325,7 +336,15 @@ func IterationAcross(fam byte, key string, mid func() *Op, tag string) *Step {
 	st.Verify = func(x *Exec) string {
 		r := verifhook.DB(x.DB)
 		var all []string
-		if fam == 'E' {
+		if fam == 'H' {
+			fs, err := r.Hash().Fields(key)
+			if err != nil {
+				return "fields: " + err.Error()
+			}
+			for _, f := range fs {
+				all = append(all, SS(f))
+			}
+		} else if fam == 'E' {
 			vs, err := r.Set().Items(key)
 			if err != nil {
 				return "items: " + err.Error()
